@@ -15,6 +15,11 @@ theorem sumRange_eq_sum {M : Type} [AddCommMonoid M] (n : ℕ) (f : ℕ → M) :
   | zero => simp [sumRange]
   | succ n ih => rw [sumRange, ih, Finset.sum_range_succ]
 
+/-- in the theorem files complex conjugation is `star` -/
+instance (priority := 100) chanStarConj {R : Type} [Star R] : Conj R := ⟨star⟩
+
+theorem conj_eq_star {R : Type} [Star R] (x : R) : conj x = star x := rfl
+
 theorem div_of_lt {q r P : ℕ} (hr : r < P) : (q * P + r) / P = q := by
   rw [Nat.add_comm, Nat.add_mul_div_right _ _ (by omega), Nat.div_eq_of_lt hr, Nat.zero_add]
 
